@@ -113,7 +113,7 @@ HARNESSES += [
 
 HARNESSES += [
     {"name": "fd_in_set", "props": ["C11"], "src": "h_process_static.c", "contracts": ["public.h"],
-     "includes": ["process.posix.c"], "enforce": "fd_in_set", "defs": {"PS_fd_in_set": None}, "unwind": 8,
+     "includes": ["process.posix.c"], "enforce": "fd_in_set", "defs": {"PS_fd_in_set": None}, "unwind": 10,
      "what": "fd_in_set over a 6-entry set (the size process_start passes), loop fully unrolled"},
     {"name": "get_max_fd", "props": ["C11", "C04"], "src": "h_process_static.c", "contracts": ["public.h"],
      "includes": ["process.posix.c"], "enforce": "get_max_fd", "defs": {"PS_get_max_fd": None},
@@ -123,6 +123,11 @@ HARNESSES += [
      "defs": {"SIDE_PARENT": None}, "unwind": 34,
      "what": "process_fork, parent side of fork, every OS call fallible: mask and descriptors restored on every return, "
              "success is a live child, failure leaves no child"},
+    {"name": "process_fork_parent_st", "props": ["C12", "C04"], "src": "h_process_fork.c",
+     "contracts": ["public.h"], "includes": ["process.posix.c"], "enforce": "process_fork",
+     "defs": {"SIDE_PARENT": None}, "undef": ["REPROC_MULTITHREADED"], "unwind": 34,
+     "what": "process_fork, parent side, in the single-threaded build configuration (REPROC_MULTITHREADED off: "
+             "signal_mask goes through sigprocmask, -1/errno convention)"},
     {"name": "process_fork_child", "props": ["C11", "C12", "C04", "C10", "C02"], "src": "h_process_fork.c",
      "contracts": ["public.h"], "includes": ["process.posix.c"], "enforce": "process_fork",
      "replace": ["fd_in_set"], "loop_contracts": True,
